@@ -119,7 +119,11 @@ def run_case(case) -> list[Failure]:
         kw = {}
         if case.get("blocksize"):
             kw["blocksize"] = case["blocksize"]
-        retries = Retry(total=5, connect=5, read=5, status=5, other=5, redirect=5, allowed_methods=None, status_forcelist=[503], backoff_factor=0, respect_retry_after_header=False)
+        # the policy that allows the re-sends: every counter set | no overall limit (total=None, a documented setting)
+        rshape = case.get("rshape", "all")
+        if rshape not in ("all", "total-none"):
+            raise core.InvalidCase
+        retries = Retry(total=(5 if rshape == "all" else None), connect=5, read=5, status=5, other=5, redirect=5, allowed_methods=None, status_forcelist=[503], backoff_factor=0, respect_retry_after_header=False)
         obj = urllib3.HTTPConnectionPool("a.test", 80, maxsize=2, **kw) if entry == "pool" else urllib3.PoolManager(**kw)
         body = reqwire.make_body(spec)
         exc = None
@@ -258,6 +262,8 @@ def enum_cases(tier):
                 if off and kind not in ("bytesio", "stringio", "file", "textfile", "notell", "badtell", "shortread"):
                     continue
                 yield _mk(entry, method, kind, size, off, False, None, 8 if size != 31 else None, history)
+                if size == 9 and off == 0:
+                    yield dict(_mk(entry, method, kind, size, off, False, None, 8, history), rshape="total-none")
     if tier != "quick":
         for kind, size, history in itertools.product(KINDS, (0, 9), HISTORIES[1:9]):
             if kind == "none" and size:
@@ -297,6 +303,8 @@ def run_shard(spec):
                 return
             if case["framing"] == "cl":
                 case = dict(case, chunked=False, history=["ok"])
+            if core.h64(core.canon(case)) % 4 == 0:
+                case = dict(case, rshape="total-none")
             col.case(case, nontrivial(case), classes(case), run_case(case))
 
         core.hyp_run(strat, spec["n"], spec["seed"], body)
